@@ -6,8 +6,12 @@ rows = []
 for l in log:
     m = re.match(r'^(\S+): caught by:(.*)$', l)
     if not m:
-        continue
-    mid, caught = m.group(1), m.group(2).strip()
+        m2 = re.match(r'^(\S+): patch does not apply', l)
+        if not m2:
+            continue
+        mid, caught = m2.group(1), 'n/a - no longer applies (the code it changed was rewritten by a later fix)'
+    else:
+        mid, caught = m.group(1), m.group(2).strip()
     meta = {}
     for fn in ('meta.json', 'meta.orig.json'):
         p = os.path.join('/verif/seeded', mid, fn)
@@ -27,9 +31,10 @@ out = ['# Seeded property-breaking changes and the checks that report them', '',
        '| id | property | change | reported by |', '|---|---|---|---|']
 for r in rows:
     out.append('| %s | %s | %s | %s |' % (r[0], r[1], r[2].replace('|', '/'), r[3] or 'none'))
-own = sum(1 for r in rows if r[3] != 'none' and r[1] in r[3])
-anyc = sum(1 for r in rows if r[3] != 'none')
-out += ['', '%d changes; %d reported by some check, %d of them by the check of the property they were written against.' % (len(rows), anyc, own)]
+live = [r for r in rows if not r[3].startswith('n/a')]
+own = sum(1 for r in live if r[3] != 'none' and r[1] in r[3])
+anyc = sum(1 for r in live if r[3] != 'none')
+out += ['', '%d changes; %d reported by some check, %d of them by the check of the property they were written against.' % (len(live), anyc, own)]
 if len(sys.argv) > 2 and os.path.exists(sys.argv[2]):
     out += ['', '## Behaviour-preserving refactorings (`selftest/benign`, must raise no alarm)', '']
     for l in open(sys.argv[2]).read().splitlines():
